@@ -10,7 +10,8 @@
    Blockwise/ProofsExchange.v by induction over the script. *)
 From Coq Require Import ZArith Bool List Lia.
 From GoCoap Require Import Base.Bytes Block.Model Blockwise.Config Blockwise.Model Blockwise.Spec Blockwise.Proofs Blockwise.Run
-  Blockwise.ProofsExchange.
+  Blockwise.ProofsExchange Blockwise.ProofsProgressDown.
+From GoCoap Require Blockwise.ProofsProgressUp.
 Import ListNotations.
 Open Scope Z_scope.
 
@@ -93,16 +94,16 @@ Theorem C04_isolated : forall app, (forall t d w, app t d = Some w -> mtok w = t
 Proof. exact handle_isolated. Qed.
 Print Assumptions C04_isolated.
 
-(* C04_progress_partial.  Full statement (NOT proved, see notes/C04.md): with no
-   faults every exchange of the two-endpoint model completes within
-   ceil(|body| / size) + 1 round trips.  Proved: the lock-step core of a download
-   (Block2) - receiver asks for block |buffer|/size, createSendingMessage serves it,
-   the reassembly step appends it - ends with the exact body within
-   (remaining / buffer) + 1 round trips, for every body, every SZX and every
-   maximum message size with a non-empty buffer (BERT: >= 1024).  Uploads are
-   covered by the correspondence runs only; observations O1 (one-way POST/PUT skips
-   block 0) and O2 (BERT upload of 1024 < |body| <= buffer) are the cases where the
-   implementation itself makes no progress. *)
+(* C04_progress_partial.  The lock-step core of a download (Block2) - receiver asks
+   for block |buffer|/size, createSendingMessage serves it, the reassembly step appends
+   it - ends with the exact body within (remaining / buffer) + 1 round trips, for every
+   body, every SZX and every maximum message size with a non-empty buffer (BERT: >= 1024).
+   Progress of the full two-endpoint run (Start, then deliver in order) is proved further
+   down: C04_progress_download (Do GET), C04_progress_upload* (Do POST/PUT, one-way
+   writes), with the regions where the implementation itself makes no progress - O1
+   (one-way POST/PUT skips block 0), O2 (BERT upload of 1024 < |body| < buffer) - and O3
+   (single-block response keeps its state) as explicit hypotheses, each with its
+   refutation. *)
 Theorem C04_progress_partial : forall fuel orig s m cm j,
   is_upload (mcode orig) = false -> 0 <= s <= 7 -> 0 <= m -> 0 < buffer_size s m ->
   prefix (mbody cm) (mbody orig) -> 0 <= j -> blen (mbody cm) = j * buffer_size s m ->
@@ -275,6 +276,154 @@ Example C04_nonvacuous :
   = [ex_body]
   /\ blen (mbody (ex_block 2)) = 5 /\ mb2 (ex_block 2) = Some {| bszx := 0; bnum := 2; bmore := false |}.
 Proof. vm_compute. repeat split. Qed.
+
+(* ------------------------------------------------------------------------ *)
+(* Progress without faults, full two-endpoint run (Blockwise/ProofsProgressDown.v). *)
+(* Script: Start i, then n times "deliver the oldest in-flight message".        *)
+(* [get_done c i x n handed wbf sizes]: in that run B's application is handed    *)
+(* exactly one message, the request; A's application exactly one, [handed]; no   *)
+(* error callback fires; the Do returns ok in the last step and not before; at   *)
+(* the end A is back in its initial state, B's endpoint is [wbf], nothing is in   *)
+(* flight or pending, the four table sizes are [sizes].                          *)
+
+(* Do GET, every body length L, every SZX pair 0..7 (7 = BERT with max message size
+   >= 1024): completes with the exact body (code, token, ETag, Content-Format of the
+   response; no Block/Size option left) after q round trips, q = 1 for L < size szxB
+   (plain request/response), otherwise q = 1 + ceil((L - B0) / Bs) <= ceil(L / size min)
+   with B0 = buffer_size szxB maxB and Bs = buffer_size (min szxA szxB) maxB; all tables
+   empty at the end.  The hypothesis excludes O3: size szxB <= L <= B0, where the response
+   is a single block (see C04_progress_download_single_block). *)
+Theorem C04_progress_download : forall c i x r,
+  nth_error (cexch c) i = Some x -> xkind x = 0 -> xcode x = GET -> xlen x = 0 ->
+  nth_error (cres c) (Z.to_nat (xpath x)) = Some r ->
+  0 <= cszxA c <= 7 -> 0 <= cszxB c <= 7 -> (cszxB c = 7 -> 1024 <= cmaxB c) ->
+  let L := blen (res_body r 0) in
+  let B0 := buffer_size (cszxB c) (cmaxB c) in
+  let s := Z.min (cszxA c) (cszxB c) in
+  let Bs := buffer_size s (cmaxB c) in
+  (L < size (cszxB c) \/ B0 < L) ->
+  exists q : nat,
+    (1 <= q)%nat /\ Z.of_nat q <= (L + size s - 1) / size s + 1 /\
+    (L < size (cszxB c) -> q = 1%nat) /\
+    (B0 < L -> (Z.of_nat q - 2) * Bs < L - B0 <= (Z.of_nat q - 1) * Bs /\ Z.of_nat q <= (L + size s - 1) / size s) /\
+    get_done c i x (2 * q) (get_resp x r) (wb (init c)) [0; 0; 0; 0].
+Proof. exact get_progress. Qed.
+Print Assumptions C04_progress_download.
+
+(* O3 (found by this proof): a response of exactly one block (BERT: up to maxB/1024
+   blocks), size szxB <= L <= B0.  B sends it as Block2 NUM 0 M=0; the Do returns ok with
+   the exact body after one round trip, but A's application is handed the block message
+   itself (Block2 / Size2 options still on it) and B keeps the response in its sending
+   table (sizes [0;0;1;0]) until the expiry sweep: delivered exactly once, exact body,
+   state not released.  The run stays there for every longer script. *)
+Theorem C04_progress_download_single_block : forall c i x r,
+  nth_error (cexch c) i = Some x -> xkind x = 0 -> xcode x = GET -> xlen x = 0 ->
+  nth_error (cres c) (Z.to_nat (xpath x)) = Some r ->
+  0 <= cszxA c <= 7 -> 0 <= cszxB c <= 7 ->
+  let L := blen (res_body r 0) in
+  let B0 := buffer_size (cszxB c) (cmaxB c) in
+  size (cszxB c) <= L <= B0 ->
+  get_done c i x 2 (blk_msg (get_resp x r) (cszxB c) 0 B0)
+           (with_sending (wb (init c)) [(xtok x, get_resp x r)]) [0; 0; 1; 0] /\
+  mbody (blk_msg (get_resp x r) (cszxB c) 0 B0) = res_body r 0 /\
+  mb2 (blk_msg (get_resp x r) (cszxB c) 0 B0) = Some {| bszx := cszxB c; bnum := 0; bmore := false |} /\
+  ms2 (blk_msg (get_resp x r) (cszxB c) 0 B0) = Some L.
+Proof. exact get_single_block. Qed.
+Print Assumptions C04_progress_download_single_block.
+
+(* The block-wise download phase from a generic mid-state (any request code GET..DELETE,
+   so also the response of a POST/PUT; any response message; first block served with
+   SZX s0 <= szxB), for composition with an upload phase. *)
+Theorem C04_download_phase : forall c tok req resp sA sB mB s0,
+  GET <= mcode req <= DELETE -> mtok resp = tok -> resp_code_ok (mcode resp) -> mobs resp = None ->
+  0 <= sA <= 7 -> 0 <= s0 <= sB -> sB <= 7 -> (s0 = 7 -> 1024 <= mB) ->
+  forall w, at_first tok req resp sA sB mB s0 w ->
+  buffer_size s0 mB < blen (mbody resp) -> In tok (map snd (pending w)) ->
+  exists q : nat,
+    (1 <= q)%nat /\
+    (Z.of_nat q - 1) * buffer_size (Z.min sA s0) mB < blen (mbody resp) - buffer_size s0 mB
+      <= Z.of_nat q * buffer_size (Z.min sA s0) mB /\
+    let es := repeat (Deliver 0%nat) (1 + 2 * q) in
+    done_world tok w (run_w c w es) /\ done_obs tok resp w (run_w c w es) (run c w es) [].
+Proof. exact download_phase. Qed.
+Print Assumptions C04_download_phase.
+
+(* Uploads (Blockwise/ProofsProgressUp.v; its names are used qualified, Up.x).      *)
+Module Up := GoCoap.Blockwise.ProofsProgressUp.
+
+(* Do POST/PUT, every body length, every SZX pair 0..7 (a BERT sender has max message
+   size >= 1024), response of B's application shorter than 16 bytes (not block-wise):
+   B's application is handed exactly one message, the request with its exact body and
+   without Block1/Size1; A's application exactly the response; no error; the Do returns
+   ok once, in the last step; tables empty; after exactly [Up.upload_rounds] round trips,
+   at most ceil(|body| / block) + 1 with block = size (min szxA szxB) (after a
+   down-negotiation the sender re-sends overlapping blocks until the offsets meet again).
+   Hypothesis: outside O2. *)
+Theorem C04_progress_upload : forall c i x r,
+  nth_error (cexch c) i = Some x -> xkind x = 0 -> xcode x = 2 \/ xcode x = 3 -> 0 <= xlen x ->
+  0 <= cszxA c <= 7 -> 0 <= cszxB c <= 7 -> 0 <= cmaxA c -> (cszxA c = 7 -> 1024 <= cmaxA c) ->
+  nth_error (cres c) (Z.to_nat (xpath x)) = Some r -> rlen r < 16 ->
+  ~ Up.o2_region c (xlen x) ->
+  let n := (2 * Z.to_nat (Up.upload_rounds c (xlen x)))%nat in
+  let script := Start i :: repeat (Deliver 0) n in
+  let tr := run c (init c) script in
+  let block := size (Z.min (cszxA c) (cszxB c)) in
+  Up.deliv_to 1 tr = [request_of x] /\
+  Up.deliv_to 0 tr = [Up.response_of c x r] /\
+  Forall (fun o => mo_err o = 0) tr /\
+  concat (map mo_ret tr) = [(Z.of_nat i, 0)] /\ mo_ret (last tr Up.no_mob) = [(Z.of_nat i, 0)] /\
+  mo_sizes (last tr Up.no_mob) = [0; 0; 0; 0] /\
+  flight (Up.exec c (init c) script) = [] /\
+  1 <= Up.upload_rounds c (xlen x) <= (xlen x + block - 1) / block + 1.
+Proof. exact Up.C04_upload_progress. Qed.
+Print Assumptions C04_progress_upload.
+
+(* O2, exact region (narrower than first recorded): a BERT sender, 1024 < |body| < its
+   buffer, and the receiver is BERT too or |body| is not a multiple of the receiver's
+   block size.  There, for EVERY longer script: nothing is ever handed to either
+   application, the Do does not return (it ends by its time-out), exactly one error
+   callback fires (at the sender, which seeks past the end of the body), and B's
+   reassembly entry stays until the expiry sweep: an error / time-out, never a partial
+   body. *)
+Theorem C04_progress_upload_O2_refuted : forall c i x,
+  nth_error (cexch c) i = Some x -> xkind x = 0 -> xcode x = 2 \/ xcode x = 3 -> 0 <= xlen x ->
+  0 <= cszxA c <= 7 -> 0 <= cszxB c <= 7 -> 0 <= cmaxA c -> (cszxA c = 7 -> 1024 <= cmaxA c) ->
+  Up.o2_region c (xlen x) ->
+  let bm := buffer_size (Z.min (cszxA c) (cszxB c)) (cmaxA c) in
+  let n0 := (2 * Z.to_nat (xlen x / bm) + 2)%nat in
+  forall n,
+  let script := Start i :: repeat (Deliver 0) (n0 + n) in
+  let tr := run c (init c) script in
+  Up.deliv_to 1 tr = [] /\ Up.deliv_to 0 tr = [] /\ concat (map mo_ret tr) = [] /\
+  Up.err_count tr = 1 /\ Exists (fun o => mo_side o = 0 /\ mo_err o = 1 /\ mo_wire o = None) tr /\
+  mo_sizes (last tr Up.no_mob) = [0; 0; 0; 1] /\
+  flight (Up.exec c (init c) script) = [].
+Proof. exact Up.C04_upload_O2_refuted. Qed.
+Print Assumptions C04_progress_upload_O2_refuted.
+
+(* O1: a one-way write (WriteMessage) of a POST/PUT with |body| >= size szxA skips block 0
+   (createSendingMessage adds the buffer length to the offset for Block1): for every script
+   length nothing is ever handed to B's application ... *)
+Theorem C04_progress_write_O1_nothing : forall c i x,
+  nth_error (cexch c) i = Some x -> xkind x = 1 -> xcode x = 2 \/ xcode x = 3 -> 0 <= xlen x ->
+  0 <= cszxA c <= 7 -> 0 <= cszxB c <= 7 -> 0 <= cmaxA c -> (cszxA c = 7 -> 1024 <= cmaxA c) ->
+  size (cszxA c) <= xlen x ->
+  forall n, Up.deliv_to 1 (run c (init c) (Start i :: repeat (Deliver 0) n)) = [].
+Proof. exact Up.C04_write_O1_nothing. Qed.
+Print Assumptions C04_progress_write_O1_nothing.
+(* ... while a one-way write below the block size is delivered exactly once, exactly. *)
+Theorem C04_progress_write_small : forall c i x r,
+  nth_error (cexch c) i = Some x -> xkind x = 1 -> xcode x = 2 \/ xcode x = 3 -> 0 <= xlen x ->
+  0 <= cszxA c <= 7 -> 0 <= cszxB c <= 7 -> 0 <= cmaxA c -> (cszxA c = 7 -> 1024 <= cmaxA c) ->
+  nth_error (cres c) (Z.to_nat (xpath x)) = Some r -> rlen r < 16 ->
+  xlen x < size (cszxA c) ->
+  let script := [Start i; Deliver 0; Deliver 0]%nat in
+  let tr := run c (init c) script in
+  Up.deliv_to 1 tr = [request_of x] /\ Up.deliv_to 0 tr = [Up.response_of c x r] /\
+  Forall (fun o => mo_err o = 0) tr /\ concat (map mo_ret tr) = [(Z.of_nat i, 0)] /\
+  mo_sizes (last tr Up.no_mob) = [0; 0; 0; 0] /\ flight (Up.exec c (init c) script) = [].
+Proof. exact Up.C04_write_small_delivered. Qed.
+Print Assumptions C04_progress_write_small.
 
 (* Non-vacuity of the two-party theorems: two concurrent exchanges (a 40-byte POST with a
    5-byte answer, token 7; a GET of a 50-byte resource with ETag, token 8) at SZX 0 / 1,
